@@ -28,6 +28,8 @@ type gateStream struct {
 	gate    chan struct{}
 	closed  chan struct{}
 	once    sync.Once
+	late    []byte // handed to the reader after the stream was closed: data that raced the close
+	lateGo  chan struct{}
 }
 
 func (s *gateStream) Read(p []byte) (int, error) {
@@ -48,6 +50,17 @@ func (s *gateStream) Read(p []byte) (int, error) {
 		case <-s.eof:
 			return 0, io.EOF
 		case <-s.closed:
+			if s.lateGo != nil {
+				<-s.lateGo
+			}
+			s.mu.Lock()
+			if len(s.late) > 0 {
+				n := copy(p, s.late)
+				s.late = s.late[n:]
+				s.mu.Unlock()
+				return n, nil
+			}
+			s.mu.Unlock()
 			return 0, errors.New("use of closed stream")
 		}
 	}
@@ -172,8 +185,88 @@ func clCloseGate(a []string) string {
 	return "ok"
 }
 
+// cl.closegate late: the local side closes the connection while the last bytes of a message are on their way; the reader
+// gets them after the close (a read that raced it) and the message is dispatched on the closed endpoint.  What is asked
+// of the connection afterwards fails, at once.
+func clCloseLate() string {
+	log.SetOutput(ioutil.Discard)
+	hdr := qnet.NewHeader(qnet.Reply, 5, 1, 100, 999)
+	hdr.Size = 4
+	frame := wireOf(hdr, []byte{1, 2, 3, 4})
+	st := &gateStream{in: make(chan []byte, 8), eof: make(chan struct{}), entered: make(chan struct{}), gate: make(chan struct{}), closed: make(chan struct{})}
+	st.late = frame[len(frame)-3:]
+	st.lateGo = make(chan struct{})
+	ep := qnet.NewEndPoint(st)
+	client := bus.NewClient(bus.NewContext(ep))
+	var cb int64
+	client.OnDisconnect(func(error) { atomic.AddInt64(&cb, 1) })
+	st.in <- frame[:len(frame)-3]
+	time.Sleep(20 * time.Millisecond)
+	go ep.Close()
+	select {
+	case <-st.entered:
+	case <-time.After(3 * time.Second):
+		return "fail:the stream is not closed after the loss"
+	}
+	close(st.gate)
+	time.Sleep(30 * time.Millisecond)
+	close(st.lateGo) // the shutdown is over: now the reader gets the last bytes
+	time.Sleep(30 * time.Millisecond)
+	type outcome struct {
+		name string
+		err  error
+	}
+	outs := make(chan outcome, 2)
+	go func() {
+		cancel := make(chan struct{})
+		timer := time.AfterFunc(3*time.Second, func() { close(cancel) })
+		_, err := client.Call(cancel, 5, 1, 100, []byte{1})
+		timer.Stop()
+		select {
+		case <-cancel:
+			err = nil
+		default:
+		}
+		outs <- outcome{"call", err}
+	}()
+	go func() {
+		_, ch, err := client.Subscribe(5, 1, 200)
+		if err == nil {
+			select {
+			case _, ok := <-ch:
+				if !ok {
+					err = errors.New("closed")
+				}
+			case <-time.After(3 * time.Second):
+			}
+		}
+		outs <- outcome{"subscription", err}
+	}()
+	for i := 0; i < 2; i++ {
+		select {
+		case o := <-outs:
+			if o.err == nil {
+				return fmt.Sprintf("fail:a %s made after the connection was closed was left waiting", o.name)
+			}
+		case <-time.After(5 * time.Second):
+			return "fail:a call or a subscription made after the connection was closed did not return"
+		}
+	}
+	if n := atomic.LoadInt64(&cb); n != 1 {
+		return fmt.Sprintf("fail:the disconnect callback ran %d times", n)
+	}
+	return "ok"
+}
+
 func init() {
 	executors["cl.closegate"] = func(a []string) string {
+		if len(a) == 1 && a[0] == "late" {
+			r := clCloseLate()
+			if r != "ok" {
+				lastFailDetail = r
+			}
+			return r
+		}
 		r := clCloseGate(a)
 		if r != "ok" {
 			lastFailDetail = r
